@@ -1044,6 +1044,7 @@ int32_t tls13WriteCookie(ssl_t *ssl,
         cookieLen = psGetOutputBlockLength(tls13GetCipherHmacAlg(ssl));
         if (cookieLen < 0)
         { /* errorCode returned for unknown hmac */
+            psDynBufUninit(&cookieBuf);
             return cookieLen;
         }
     }
@@ -1071,6 +1072,7 @@ int32_t tls13WriteCookie(ssl_t *ssl,
     extensionData = psDynBufDetachPsSize(&cookieBuf, &extensionDataLen);
     if (extensionData == NULL)
     {
+        psDynBufUninit(&cookieBuf);
         return PS_MEM_FAIL;
     }
     psDynBufAppendTlsVector(extBuf,
